@@ -9,6 +9,7 @@ package raftpb
 
 //@ func GetEntrySliceSize [C19 C13]
 //@ ensures len(ents) == 0 ==> result == 0
+//@ loop 1 invariant $i == 0 - 1 ==> sz == 0
 
 // ---------------------------------------------------------------- C13: sizes of the hand-written Entry codec (Int mode, exact machine arithmetic)
 
@@ -92,7 +93,7 @@ package raftpb
 // upper limit and the snapshot record
 //@ func (m *Snapshot) Size [C13]
 //@ trusted gogo-generated codec of a map-bearing message (assumed; bounded stand-in only)
-//@ ensures result >= 0
+//@ ensures result >= 0 && result <= 1099511627776
 
 //@ func (u *Update) SizeUpperLimit [C13]
 //@ ensures len(u.EntriesToSave) == 0 && u.Snapshot.Index == 0 ==> result == 22 + 56 + 48
